@@ -94,6 +94,8 @@ def seq_cases(ctx, world, clock, n):
                 t = t                                                         # same instant
             else:
                 t = t + rng.choice([1, 1000, MS // 2, MS, fp * MS // 2 + 1, fp * MS, 3 * fp * MS + 7])
+            if (ws or we) and rng.random() < 0.3:
+                t = rng.choice([x for x in (ws, ws - 1, ws + 1, we, we - 1, we + 1) if x > 1])      # on / around the window's ends
             if t <= 0:
                 t = 1
             cond = rng.random() < 0.8
